@@ -1,6 +1,55 @@
-/-! line protocol for C05 (stub: no model yet) -/
+import ObiVerif.Model.Command
+import ObiVerif.Driver.Util
+/-! line protocol for C05: `run <scenario> seed= nrec= cpu= batch= gmp= rep= | <kind> <hex output of record 0 alone> …` -/
 namespace ObiVerif.Driver.C05
+open ObiVerif.Command ObiVerif.Iter ObiVerif.Driver
 
-def run (_line : String) : String := "bad-op"
+def splitLines (b : List UInt8) : List (List UInt8) :=
+  let (cur, acc) := b.foldl (fun (st : List UInt8 × List (List UInt8)) c =>
+    if c == 10 then ([], st.2 ++ [st.1 ++ [10]]) else (st.1 ++ [c], st.2)) ([], [])
+  if cur.isEmpty then acc else acc ++ [cur]
+
+/-- the number after the first comma of a line `key,123\n` -/
+def numAfterComma (l : List UInt8) : Nat :=
+  ((l.dropWhile (· != 44)).drop 1).foldl (fun n c => if 48 ≤ c && c ≤ 57 then n * 10 + (c.toNat - 48) else n) 0
+
+def showNat (n : Nat) : List UInt8 := (toString n).toUTF8.toList
+
+def run (line : String) : String :=
+  match line.splitOn " | " with
+  | [_, data] =>
+    match words data with
+    | ["opaque"] => "ok"
+    | kind :: hs =>
+      match hs.mapM unhex with
+      | none => "bad-op"
+      | some singles =>
+        if singles.any (fun s => s.head? == some 33) then "bad-single" else
+        let n := singles.length
+        let single (i : Rec) : Command.Bytes := singles.getD i []
+        -- one reader batch holding every record, one worker, one writer arrival: by `command_deterministic`
+        -- every other partition / schedule gives the same bytes
+        let arr : List Batch := [(0, List.range n)]
+        if kind = "records" then
+          s!"ok {hex (commandOutput single arr)}"
+        else if kind = "csv" then
+          -- every single output is `header line` + `row`
+          let header : Command.Bytes := match singles with
+            | [] => []
+            | s :: _ => (splitLines s).headD []
+          let row (i : Rec) : Command.Bytes := ((splitLines (single i)).drop 1).flatten
+          s!"ok {hex (header ++ commandOutput row arr)}"
+        else if kind = "count" then
+          let cnt (i : Rec) : Nat × Nat × Nat :=
+            match splitLines (single i) with
+            | [_, a, b, c] => (numAfterComma a, numAfterComma b, numAfterComma c)
+            | _ => (0, 0, 0)
+          let (v, r, s) := countOutput cnt arr
+          let txt : List UInt8 := "entites,n\n".toUTF8.toList ++ "variants,".toUTF8.toList ++ showNat v ++ [10]
+            ++ "reads,".toUTF8.toList ++ showNat r ++ [10] ++ "symbols,".toUTF8.toList ++ showNat s ++ [10]
+          s!"ok {hex txt}"
+        else "bad-op"
+    | _ => "bad-op"
+  | _ => "bad-op"
 
 end ObiVerif.Driver.C05
